@@ -268,6 +268,7 @@ type modelHasher struct {
 type hashApp struct {
 	alg    string
 	stream *smt.Term
+	sval   value
 	res    *smt.Term
 }
 
@@ -317,7 +318,6 @@ func (r *runState) applyHash(alg string, stream value) value {
 		}
 		res = r.declare(r.fresh("H_"+alg), smt.SString, "hash")
 		r.assertPC(smt.Eq(smt.StrLen(res), smt.IntC(int64(hashLen(alg)))))
-		r.assertPC(smt.InRe(res, alphabetRe("0123456789abcdef")))
 	}
 	for _, a := range r.hashApps {
 		if a.alg != alg {
@@ -326,12 +326,59 @@ func (r *runState) applyHash(alg string, stream value) value {
 		if a.res.IsConst && res.IsConst {
 			continue
 		}
-		r.assertPC(smt.Eq(smt.Eq(a.res, res), smt.Eq(a.stream, st)))
+		r.assertPC(smt.Eq(smt.Eq(a.res, res), strEqTerm(a.sval, stream)))
 	}
-	r.hashApps = append(r.hashApps, hashApp{alg, st, res})
+	r.hashApps = append(r.hashApps, hashApp{alg, st, stream, res})
 	return mkSymStr(res)
 }
 
 func init() {
 	register(symPkg+"Tier", func(fr *frame, args []value) value { return Tier })
+}
+
+func init() {
+	// crash / fault injection and process identity
+	register(symPkg+"RunToCrash", func(fr *frame, args []value) (res value) {
+		r := fr.run()
+		r.flags["crashArmed"] = 1
+		defer func() {
+			r.flags["crashArmed"] = 0
+			if p := recover(); p != nil {
+				if _, ok := p.(crashNow); ok {
+					res = true
+					return
+				}
+				panic(p)
+			}
+		}()
+		call(fr.i, fr, 0, args[0], nil)
+		return false
+	})
+	register(symPkg+"Faults", func(fr *frame, args []value) value {
+		r := fr.run()
+		r.flags["faultBudget"] = asInt64(args[0])
+		r.objs["faultPrefix"] = cstr(args[1])
+		r.objs["faultOps"] = cstr(args[2])
+		return nil
+	})
+	register(symPkg+"FaultsInjected", func(fr *frame, args []value) value {
+		return int(fr.run().flags["faultsInjected"])
+	})
+	register(symPkg+"FSVisible", func(fr *frame, args []value) value {
+		if args[0].(bool) {
+			fr.run().flags["fsVisible"] = 1
+		} else {
+			fr.run().flags["fsVisible"] = 0
+		}
+		return nil
+	})
+	register(symPkg+"SetPid", func(fr *frame, args []value) value {
+		fr.run().flags["pid"] = asInt64(args[0])
+		return nil
+	})
+	register(symPkg+"TempDir", func(fr *frame, args []value) value {
+		p := "/" + cstr(args[0])
+		fr.run().FS().mkdirAll(p)
+		return p
+	})
 }
